@@ -280,3 +280,12 @@ CHECKS["C15"] = {
     "level_note": "the disturbing sessions do not advance time (only then is the observed trace comparable); real-socket runs use short real timers and a watchdog whose expiry is inconclusive; race-detector reports of the thorough tier are diagnostics",
     "design_ref": "3/C15",
 }
+
+CHECKS["C30"] = {
+    "level": "exploration",
+    "max_inconclusive_frac": 0.3,
+    "technique": "runtime monitoring at process level: the three built binaries run on loopback against a fake MQTT broker / fake MQTT-SN gateway of the harness; reference merge model (file, then options in order) as oracle over what appears on the wire and the exit status",
+    "level_text": "40 (quick) generated configurations - YAML files and option lists with overlapping client IDs and topic IDs, via flags or environment - are given to bisquitt, bisquitt-pub and bisquitt-sub; probes through the real sockets show which name each (client, predefined ID) denotes for the gateway and which ID each tool uses for a topic name. All three must agree with one reference mapping.",
+    "level_note": "process-level, real time: every verdict needs a positive observation (datagram seen, broker packet, exit status); watchdog expiry is inconclusive",
+    "design_ref": "3/C30",
+}
